@@ -3,7 +3,9 @@ package main
 import (
 	"fmt"
 	"go/types"
+	"regexp"
 	"strings"
+	"unicode/utf8"
 )
 
 // ---------- harness intrinsics (body-less verif* functions of /verif/harness/api_sym.go) ----------
@@ -52,11 +54,11 @@ func (e *Exec) verifIntrinsic(caller *frame, name string, args []Value) Value {
 		n := len(vals)
 		c := e.fresh(SBV, 8, "p", "pick")
 		e.assume(mk(OBvUlt, 0, c, cBV(uint64(n), 8)))
-		var cases []fdCase
+		ts := make([]*Term, n)
 		for k, v := range vals {
-			cases = append(cases, fdCase{eqT(c, cBV(uint64(k), 8)), v.(*Term)})
+			ts[k] = v.(*Term)
 		}
-		return mkFD(cases)
+		return fdPick(c, ts)
 	case "verifAnd":
 		r := tTrue
 		for _, t := range e.termsOf(args[0]) {
@@ -97,7 +99,23 @@ func (e *Exec) verifIntrinsic(caller *frame, name string, args []Value) Value {
 	case "verifKnownFmt":
 		return e.predVar("known:" + strKey(args[0]))
 	case "verifMatches":
+		if _, abs := args[1].(*AStr); !abs {
+			re, err := regexp.Compile(concStr(e, args[0]))
+			if err != nil {
+				return tFalse
+			}
+			return cBool(re.MatchString(concStr(e, args[1])))
+		}
 		return e.predVar("match:" + strKey(args[0]) + ":" + strKey(args[1]))
+	case "verifRuneCount":
+		if a, ok := args[0].(*AStr); ok {
+			return e.astrRunes(a)
+		}
+		return cBV(uint64(utf8.RuneCountInString(concStr(e, args[0]))), 64)
+	case "verifFoldEq":
+		return cBool(strings.EqualFold(concStr(e, args[0]), concStr(e, args[1])))
+	case "verifChecking":
+		return cBool(e.run.cfg.property == e.strOf(args[0]))
 	case "verifSameSet":
 		return e.sameSet(args[0].([]Value), args[1].([]Value))
 	case "verifSubset":
@@ -218,6 +236,11 @@ func (e *Exec) obligation(c *Term, label string) {
 		run.noteObligation(label, "sat")
 		e.events = append(e.events, pathEvent{Kind: "violation", Label: label, What: "assertion is false on this path", Model: e.hint})
 		panic(pathEnd{"assertion failed"})
+	}
+	c = e.in.intern(c)
+	if v, ok := e.in.known(c); ok && v {
+		run.noteObligation(label, "trivial")
+		return
 	}
 	if e.hintValid && e.ev.eval(c) == 0 {
 		run.noteObligation(label, "sat")
